@@ -353,6 +353,9 @@ func (c *vfCfg) Args() []string {
 		// the (deprecated, still shipped) Azure AD provider against the FakeIdP; v1 endpoints: no Graph groups
 		// (endpoints and keys come from discovery; the profile URL is the discovered userinfo endpoint)
 		a = append(a, "--provider=azure", "--oidc-issuer-url=http://"+vfIdpHost)
+	case "gitlab":
+		// the GitLab flavour of the OIDC provider: discovery as usual, identity from <login host>/oauth/userinfo
+		a = append(a, "--provider=gitlab", "--oidc-issuer-url=http://"+vfIdpHost, fmt.Sprintf("--insecure-oidc-skip-nonce=%v", c.SkipNonce))
 	case "keycloak-oidc":
 		a = append(a, "--provider=keycloak-oidc", "--oidc-issuer-url=http://"+vfIdpHost, fmt.Sprintf("--insecure-oidc-skip-nonce=%v", c.SkipNonce))
 	case "plain":
